@@ -406,52 +406,94 @@ Proof.
     subst e1. congruence.
 Qed.
 
+(* ================================================================== more on blanks *)
+
+Lemma split_first_space_app a b :
+  no_space a -> split_first_space (a ++ 32%N :: b) = Some (a, b).
+Proof.
+  unfold no_space. induction a as [|c r IH]; simpl; intro H; [reflexivity|].
+  apply orb_false_iff in H as [H1 H2]. rewrite H1, (IH H2). reflexivity.
+Qed.
+
+Lemma partition_app a b : no_space a -> partition_space (a ++ 32%N :: b) = (a, b).
+Proof. intro H. unfold partition_space. rewrite split_first_space_app; auto. Qed.
+
+Lemma split_first_space_none s : no_space s -> split_first_space s = None.
+Proof.
+  unfold no_space. induction s as [|c r IH]; simpl; intro H; [reflexivity|].
+  apply orb_false_iff in H as [H1 H2]. rewrite H1, (IH H2). reflexivity.
+Qed.
+
+Lemma split_last_space_some a b :
+  exists v w, split_last_space (a ++ 32%N :: b) = Some (v, w) /\ (a <> [] -> v <> []).
+Proof.
+  induction a as [|c r IH]; simpl.
+  - destruct (split_last_space b) as [[v u]|].
+    + exists (32%N :: v), u. split; [reflexivity|congruence].
+    + exists [], b. split; [reflexivity|congruence].
+  - destruct IH as [v [w [E _]]]. rewrite E. exists (c :: v), w. split; [reflexivity|discriminate].
+Qed.
+
+Lemma rpart_nonempty n u v w :
+  rpartition_space (n ++ 32%N :: u) = (v, w) -> n <> [] -> v <> [].
+Proof.
+  unfold rpartition_space. destruct (split_last_space_some n u) as [v' [w' [E Hne]]].
+  rewrite E. intro H. inversion H; subst. exact Hne.
+Qed.
+
 (* ================================================================== the loop over the tag's unit classes *)
 
-Lemma portion_loop_some S cs v u sv ut U :
-  portion_loop S cs v u = Some (sv, ut, U) ->
-  (sv = v /\ ut = u /\ u_prefix U = false /\ exists C, In C cs /\ get_derivative_unit_entry S C u = Some U) \/
-  (sv = u /\ ut = v /\ u_prefix U = true /\ exists C, In C cs /\ get_derivative_unit_entry S C v = Some U).
+Definition guard (f4 : bool) (num : str) : bool := negb f4 || negb (has_space num).
+
+Lemma portion_loop_some f4 S cs v w num ut sv ut' U :
+  portion_loop f4 S cs v w num ut = Some (sv, ut', U) ->
+  (sv = num /\ ut' = ut /\ u_prefix U = false /\ guard f4 num = true /\
+     exists C, In C cs /\ get_derivative_unit_entry S C ut = Some U) \/
+  (sv = w /\ ut' = v /\ u_prefix U = true /\ exists C, In C cs /\ get_derivative_unit_entry S C v = Some U).
 Proof.
   induction cs as [|C rest IH]; simpl; [discriminate|].
-  assert (Hrest : portion_loop S rest v u = Some (sv, ut, U) ->
-    (sv = v /\ ut = u /\ u_prefix U = false /\
-       exists C0, (C = C0 \/ In C0 rest) /\ get_derivative_unit_entry S C0 u = Some U) \/
-    (sv = u /\ ut = v /\ u_prefix U = true /\
+  fold (guard f4 num).
+  assert (Hrest : portion_loop f4 S rest v w num ut = Some (sv, ut', U) ->
+    (sv = num /\ ut' = ut /\ u_prefix U = false /\ guard f4 num = true /\
+       exists C0, (C = C0 \/ In C0 rest) /\ get_derivative_unit_entry S C0 ut = Some U) \/
+    (sv = w /\ ut' = v /\ u_prefix U = true /\
        exists C0, (C = C0 \/ In C0 rest) /\ get_derivative_unit_entry S C0 v = Some U)).
-  { intro H. destruct (IH H) as [[A [B [P [C0 [HC0 G]]]]]|[A [B [P [C0 [HC0 G]]]]]]; [left|right];
-      (split; [exact A|split; [exact B|split; [exact P|exists C0; auto]]]). }
+  { intro H. destruct (IH H) as [[A [B [P [G [C0 [HC0 G0]]]]]]|[A [B [P [C0 [HC0 G0]]]]]]; [left|right].
+    - split; [exact A|split; [exact B|split; [exact P|split; [exact G|exists C0; auto]]]].
+    - split; [exact A|split; [exact B|split; [exact P|exists C0; auto]]]. }
   assert (Hpre :
     match get_derivative_unit_entry S C v with
-    | Some U0 => if u_prefix U0 then Some (u, v, U0) else portion_loop S rest v u
-    | None => portion_loop S rest v u
-    end = Some (sv, ut, U) ->
-    (sv = v /\ ut = u /\ u_prefix U = false /\
-       exists C0, (C = C0 \/ In C0 rest) /\ get_derivative_unit_entry S C0 u = Some U) \/
-    (sv = u /\ ut = v /\ u_prefix U = true /\
+    | Some U0 => if u_prefix U0 then Some (w, v, U0) else portion_loop f4 S rest v w num ut
+    | None => portion_loop f4 S rest v w num ut
+    end = Some (sv, ut', U) ->
+    (sv = num /\ ut' = ut /\ u_prefix U = false /\ guard f4 num = true /\
+       exists C0, (C = C0 \/ In C0 rest) /\ get_derivative_unit_entry S C0 ut = Some U) \/
+    (sv = w /\ ut' = v /\ u_prefix U = true /\
        exists C0, (C = C0 \/ In C0 rest) /\ get_derivative_unit_entry S C0 v = Some U)).
   { destruct (get_derivative_unit_entry S C v) as [U0|] eqn:G0; [|exact Hrest].
     destruct (u_prefix U0) eqn:P0; [|exact Hrest].
     intro H. inversion H; subst. right. repeat split; auto. exists C. auto. }
-  destruct (get_derivative_unit_entry S C u) as [U1|] eqn:G1; [|exact Hpre].
+  destruct (get_derivative_unit_entry S C ut) as [U1|] eqn:G1; [|exact Hpre].
   destruct (u_prefix U1) eqn:P1; simpl; [exact Hpre|].
+  destruct (guard f4 num) eqn:Gd; [|exact Hpre].
   intro H. inversion H; subst. left. repeat split; auto. exists C. auto.
 Qed.
 
-(* suffix unit found: the number is not a unit text, every hit for the unit text is the same non-prefix unit *)
-Lemma portion_loop_suffix S cs v u U :
+(* unit after the number: the text before the last blank is no unit, every hit for the unit text is the same
+   non-prefix unit, the number is a single word (or the guard is off) *)
+Lemma portion_loop_suffix f4 S cs v w num ut U :
   (forall C, In C cs -> get_derivative_unit_entry S C v = None) ->
-  (forall C U', In C cs -> get_derivative_unit_entry S C u = Some U' -> U' = U) ->
-  (exists C, In C cs /\ get_derivative_unit_entry S C u = Some U) ->
-  u_prefix U = false ->
-  portion_loop S cs v u = Some (v, u, U).
+  (forall C U', In C cs -> get_derivative_unit_entry S C ut = Some U' -> U' = U) ->
+  (exists C, In C cs /\ get_derivative_unit_entry S C ut = Some U) ->
+  u_prefix U = false -> guard f4 num = true ->
+  portion_loop f4 S cs v w num ut = Some (num, ut, U).
 Proof.
-  intros Hv Hu [C0 [HC0 G0]] HP.
+  intros Hv Hu [C0 [HC0 G0]] HP HG.
   induction cs as [|C rest IH]; [destruct HC0|].
-  simpl. rewrite (Hv C (or_introl eq_refl)).
-  destruct (get_derivative_unit_entry S C u) as [U1|] eqn:G1.
+  simpl. fold (guard f4 num). rewrite (Hv C (or_introl eq_refl)).
+  destruct (get_derivative_unit_entry S C ut) as [U1|] eqn:G1.
   - assert (U1 = U) by (apply (Hu C U1); [left; reflexivity|exact G1]). subst U1.
-    rewrite HP. reflexivity.
+    rewrite HP, HG. reflexivity.
   - destruct HC0 as [HC0|HC0]; [subst C0; congruence|].
     apply IH; auto.
     + intros C1 H1. apply Hv. right. exact H1.
@@ -459,12 +501,12 @@ Proof.
 Qed.
 
 (* prefix-type unit before the number *)
-Lemma portion_loop_prefix S cs v u U :
-  (forall C, In C cs -> get_derivative_unit_entry S C u = None) ->
+Lemma portion_loop_prefix f4 S cs v w num ut U :
+  (forall C, In C cs -> get_derivative_unit_entry S C ut = None) ->
   (forall C U', In C cs -> get_derivative_unit_entry S C v = Some U' -> U' = U) ->
   (exists C, In C cs /\ get_derivative_unit_entry S C v = Some U) ->
   u_prefix U = true ->
-  portion_loop S cs v u = Some (u, v, U).
+  portion_loop f4 S cs v w num ut = Some (w, v, U).
 Proof.
   intros Hu Hv [C0 [HC0 G0]] HP.
   induction cs as [|C rest IH]; [destruct HC0|].
@@ -478,24 +520,48 @@ Proof.
     + intros C1 U' H1. apply Hv. right. exact H1.
 Qed.
 
-Lemma portion_loop_none S cs v u :
-  (forall C U', In C cs -> get_derivative_unit_entry S C u = Some U' -> u_prefix U' = true) ->
+Lemma portion_loop_none f4 S cs v w num ut :
+  (guard f4 num = false \/
+   forall C U', In C cs -> get_derivative_unit_entry S C ut = Some U' -> u_prefix U' = true) ->
   (forall C U', In C cs -> get_derivative_unit_entry S C v = Some U' -> u_prefix U' = false) ->
-  portion_loop S cs v u = None.
+  portion_loop f4 S cs v w num ut = None.
 Proof.
   intros Hu Hv. induction cs as [|C rest IH]; [reflexivity|].
-  simpl.
-  assert (IH' : portion_loop S rest v u = None).
-  { apply IH; intros C1 U' H1; [apply Hu|apply Hv]; right; exact H1. }
+  simpl. fold (guard f4 num).
+  assert (IH' : portion_loop f4 S rest v w num ut = None).
+  { apply IH.
+    - destruct Hu as [Hu|Hu]; [left; exact Hu|right]. intros C1 U' H1. apply Hu. right. exact H1.
+    - intros C1 U' H1. apply Hv. right. exact H1. }
   assert (Hpre :
     match get_derivative_unit_entry S C v with
-    | Some U0 => if u_prefix U0 then Some (u, v, U0) else portion_loop S rest v u
-    | None => portion_loop S rest v u
+    | Some U0 => if u_prefix U0 then Some (w, v, U0) else portion_loop f4 S rest v w num ut
+    | None => portion_loop f4 S rest v w num ut
     end = None).
   { destruct (get_derivative_unit_entry S C v) as [U0|] eqn:G0; [|exact IH'].
     rewrite (Hv C U0 (or_introl eq_refl) G0). exact IH'. }
-  destruct (get_derivative_unit_entry S C u) as [U1|] eqn:G1; [|exact Hpre].
-  rewrite (Hu C U1 (or_introl eq_refl) G1). simpl. exact Hpre.
+  destruct (get_derivative_unit_entry S C ut) as [U1|] eqn:G1; [|exact Hpre].
+  destruct Hu as [Hu|Hu].
+  - rewrite Hu, andb_false_r. exact Hpre.
+  - rewrite (Hu C U1 (or_introl eq_refl) G1). simpl. exact Hpre.
+Qed.
+
+(* with a single-word number the guard of repair F4 changes nothing ... *)
+Lemma portion_loop_guard_irrel f4 S cs v w num ut :
+  has_space num = false -> portion_loop f4 S cs v w num ut = portion_loop false S cs v w num ut.
+Proof.
+  intro H. induction cs as [|C rest IH]; [reflexivity|].
+  simpl. rewrite IH, H. simpl. rewrite orb_true_r. reflexivity.
+Qed.
+
+(* ... and with single-word number and unit texts neither does repair F3 *)
+Lemma portion_flags_single f3 f4 S cs a b :
+  no_space a -> no_space b ->
+  get_tag_units_portion f3 f4 S cs (a ++ 32%N :: b) = get_tag_units_portion false false S cs (a ++ 32%N :: b).
+Proof.
+  intros Ha Hb. unfold get_tag_units_portion.
+  rewrite (rpartition_app a b Hb), (partition_app a b Ha).
+  destruct (negb (nonempty b)); [reflexivity|].
+  destruct f3; apply portion_loop_guard_irrel; exact Ha.
 Qed.
 
 (* ================================================================== bridging lookup and specification *)
@@ -553,84 +619,81 @@ Proof.
   rewrite Hn in Hin. destruct Hin.
 Qed.
 
-(* ------------------------------------------------------------------ value/unit splitting: "<number> <unit>" *)
+(* ------------------------------------------------------------------ "<number> <unit text>", repaired splitting
+   (f3 = f4 = true): n is the number (one word), u the unit text (ANY number of words), (v, w) the split of the
+   whole extension at its last blank, which is the one tried for prefix-type units *)
 
-Lemma portion_suffix_exact n u C U M :
-  no_space u -> u <> [] -> cands S cs n = [] -> unamb S cs u = true ->
+Lemma portion_exact n u v w C U M :
+  no_space n -> rpartition_space (n ++ 32%N :: u) = (v, w) -> w <> [] ->
+  cands S cs v = [] -> unamb S cs u = true ->
   In C cs -> In U (c_units C) -> spells S U M u -> u_prefix U = false ->
-  get_tag_units_portion S cs (n ++ 32%N :: u) = Some (n, u, U).
+  get_tag_units_portion true true S cs (n ++ 32%N :: u) = Some (n, u, U).
 Proof.
-  intros Hns Hne Hn Hun HC HU Hsp HP.
-  unfold get_tag_units_portion. rewrite (rpartition_app n u Hns).
-  destruct u as [|c u']; [congruence|]. simpl nonempty. simpl negb. cbv iota.
-  destruct (spelled_hit C U M (c :: u') Hun HC HU Hsp) as [e [_ [Hc [_ [Hu [_ G]]]]]].
+  intros Hns Hr Hw Hv Hun HC HU Hsp HP.
+  unfold get_tag_units_portion. rewrite Hr, (partition_app n u Hns).
+  destruct w as [|c w']; [congruence|]. simpl nonempty. simpl negb. cbv iota.
+  destruct (spelled_hit C U M u Hun HC HU Hsp) as [e [_ [Hc [_ [Hu [_ G]]]]]].
   apply portion_loop_suffix; auto.
   - intros C1 H1. apply no_cands_no_hit; auto.
   - intros C1 U' H1 G1. rewrite <- Hu. eapply hit_unique; eauto.
   - exists C. auto.
+  - unfold guard. rewrite Hns. reflexivity.
 Qed.
 
-Lemma portion_suffix_spelled n u r :
-  no_space u -> cands S cs n = [] ->
-  get_tag_units_portion S cs (n ++ 32%N :: u) = Some r -> spelled_in S cs false u.
+Lemma portion_spelled n u v w r :
+  no_space n -> rpartition_space (n ++ 32%N :: u) = (v, w) -> cands S cs v = [] ->
+  get_tag_units_portion true true S cs (n ++ 32%N :: u) = Some r -> spelled_in S cs false u.
 Proof.
-  intros Hns Hn. unfold get_tag_units_portion. rewrite (rpartition_app n u Hns).
-  destruct (negb (nonempty u)); [discriminate|].
+  intros Hns Hr Hv. unfold get_tag_units_portion. rewrite Hr, (partition_app n u Hns).
+  destruct (negb (nonempty w)); [discriminate|].
   destruct r as [[sv ut] U]. intro H.
-  apply portion_loop_some in H as [[_ [_ [P [C [HC G]]]]]|[_ [_ [_ [C [HC G]]]]]].
+  apply portion_loop_some in H as [[_ [_ [P [_ [C [HC G]]]]]]|[_ [_ [_ [C [HC G]]]]]].
   - destruct (hit_spelled C u U HC G) as [HU [M Hsp]].
     exists C, U, M. auto.
-  - rewrite (no_cands_no_hit n C Hn HC) in G. discriminate.
-Qed.
-
-Theorem portion_suffix_iff n u :
-  no_space u -> u <> [] -> cands S cs n = [] -> unamb S cs u = true ->
-  ((exists r, get_tag_units_portion S cs (n ++ 32%N :: u) = Some r) <-> spelled_in S cs false u).
-Proof.
-  intros Hns Hne Hn Hun. split.
-  - intros [r H]. eapply portion_suffix_spelled; eauto.
-  - intros [C [U [M [HC [HU [Hsp HP]]]]]]. eexists. eapply portion_suffix_exact; eauto.
+  - rewrite (no_cands_no_hit v C Hv HC) in G. discriminate.
 Qed.
 
 (* ------------------------------------------------------------------ validation codes *)
 
-Lemma accepted_clean_lemma (T : utag) n u :
-  no_space u -> u <> [] -> n <> [] -> no_space n -> cands S cs n = [] -> unamb S cs u = true ->
+Lemma accepted_clean_lemma (T : utag) n u v w :
+  no_space n -> n <> [] -> u <> [] ->
+  rpartition_space (n ++ 32%N :: u) = (v, w) -> w <> [] -> cands S cs v = [] -> unamb S cs u = true ->
   spelled_in S cs false u ->
-  check_units_valid S T cs (n ++ 32%N :: u) = check_value_class T n.
+  check_units_valid true true S T cs (n ++ 32%N :: u) = check_value_class T n.
 Proof.
-  intros Hns Hne Hnn Hnsn Hn Hun [C [U [M [HC [HU [Hsp HP]]]]]].
+  intros Hns Hnn Hne Hr Hw Hv Hun [C [U [M [HC [HU [Hsp HP]]]]]].
   unfold check_units_valid, get_stripped_unit_value.
-  rewrite (portion_suffix_exact n u C U M); auto.
+  rewrite (portion_exact n u v w C U M); auto.
   destruct n as [|c0 n']; [congruence|]. simpl nonempty. cbv iota.
-  rewrite Hnsn.
+  rewrite Hns.
   destruct u as [|c u']; [congruence|]. apply app_nil_r.
 Qed.
 
-Lemma other_text_invalid_lemma (T : utag) n u :
-  no_space u -> no_space n -> cands S cs n = [] ->
+Lemma other_text_invalid_lemma (T : utag) n u v w :
+  no_space n -> rpartition_space (n ++ 32%N :: u) = (v, w) -> cands S cs v = [] ->
   ~ spelled_in S cs false u ->
-  check_units_valid S T cs (n ++ 32%N :: u) = check_value_class T n ++ [UNITS_INVALID].
+  check_units_valid true true S T cs (n ++ 32%N :: u) = check_value_class T n ++ [UNITS_INVALID].
 Proof.
-  intros Hns Hnsn Hn Hnot.
+  intros Hns Hr Hv Hnot.
   unfold check_units_valid, get_stripped_unit_value.
-  destruct (get_tag_units_portion S cs (n ++ 32%N :: u)) as [r|] eqn:E.
-  - exfalso. apply Hnot. eapply portion_suffix_spelled; eauto.
-  - rewrite has_space_app. rewrite (first_word_app n u Hnsn). reflexivity.
+  destruct (get_tag_units_portion true true S cs (n ++ 32%N :: u)) as [r|] eqn:E.
+  - exfalso. apply Hnot. eapply portion_spelled; eauto.
+  - rewrite has_space_app. rewrite (first_word_app n u Hns). reflexivity.
 Qed.
 
-Theorem accepted_iff_lemma (T : utag) n u :
-  no_space u -> u <> [] -> n <> [] -> no_space n -> cands S cs n = [] -> unamb S cs u = true ->
-  (check_units_valid S T cs (n ++ 32%N :: u) = check_value_class T n <-> spelled_in S cs false u).
+Theorem accepted_iff_lemma (T : utag) n u v w :
+  no_space n -> n <> [] -> u <> [] ->
+  rpartition_space (n ++ 32%N :: u) = (v, w) -> w <> [] -> cands S cs v = [] -> unamb S cs u = true ->
+  (check_units_valid true true S T cs (n ++ 32%N :: u) = check_value_class T n <-> spelled_in S cs false u).
 Proof.
-  intros Hns Hne Hnn Hnsn Hn Hun. split.
+  intros Hns Hnn Hne Hr Hw Hv Hun. split.
   - intro H.
-    destruct (get_tag_units_portion S cs (n ++ 32%N :: u)) as [r|] eqn:E.
-    + eapply portion_suffix_spelled; eauto.
+    destruct (get_tag_units_portion true true S cs (n ++ 32%N :: u)) as [r|] eqn:E.
+    + eapply portion_spelled; eauto.
     + exfalso. revert H. unfold check_units_valid, get_stripped_unit_value. rewrite E.
-      rewrite has_space_app, (first_word_app n u Hnsn).
+      rewrite has_space_app, (first_word_app n u Hns).
       intro H. apply (f_equal (@length code)) in H. rewrite app_length in H. simpl in H. lia.
-  - intro H. apply accepted_clean_lemma; auto.
+  - intro H. eapply accepted_clean_lemma; eauto.
 Qed.
 
 (* ------------------------------------------------------------------ conversion *)
@@ -665,71 +728,80 @@ Proof.
   rewrite (Huniq e' He' Hk') in Hd. rewrite Hd. reflexivity.
 Qed.
 
-Theorem value_suffix_core (fixed : bool) n u x C U M ft :
-  no_space u -> u <> [] -> n <> [] -> cands S cs n = [] -> unamb S cs u = true ->
+Theorem value_suffix_core (fixed : bool) n u v w x C U M ft :
+  no_space n -> n <> [] ->
+  rpartition_space (n ++ 32%N :: u) = (v, w) -> w <> [] -> cands S cs v = [] -> unamb S cs u = true ->
   In C cs -> In U (c_units C) -> spells S U M u -> u_prefix U = false ->
   u_factor U = Some ft -> parse_float n = Some x ->
   (fixed = true \/ u_symbol U = true \/ casefold u = u) ->
-  value_as_default_unit fixed S cs (n ++ 32%N :: u) = Ok (Some (Qmult x (conv fixed U M))).
+  value_as_default_unit fixed true true S cs (n ++ 32%N :: u) = Ok (Some (Qmult x (conv fixed U M))).
 Proof.
-  intros Hns Hne Hnn Hn Hun HC HU Hsp HP Hf Hx Hkey.
-  unfold value_as_default_unit. rewrite (rpartition_app n u Hns).
+  intros Hns Hnn Hr Hw Hv Hun HC HU Hsp HP Hf Hx Hkey.
+  unfold value_as_default_unit. rewrite Hr.
+  pose proof (rpart_nonempty n u v w Hr Hnn) as Hvn.
+  destruct v as [|cv v'] eqn:Ev; [congruence|]. rewrite <- Ev in *.
+  assert (Hv' : nonempty v = true) by (rewrite Ev; reflexivity).
+  rewrite Hv'. simpl negb. cbv iota. unfold bind.
+  rewrite (portion_exact n u v w C U M); auto.
   destruct n as [|c0 n'] eqn:En; [congruence|]. rewrite <- En in *.
   assert (Hne' : nonempty n = true) by (rewrite En; reflexivity).
-  rewrite Hne'. simpl negb. cbv iota. unfold bind.
-  rewrite (portion_suffix_exact n u C U M); auto.
   rewrite Hne'.
   destruct (spelled_hit C U M u Hun HC HU Hsp) as [e [He [_ [Hmod [_ [Hm _]]]]]].
   rewrite (factor_lookup fixed C U e u ft); auto.
   rewrite Hmod, Hx. reflexivity.
 Qed.
 
-Lemma value_suffix_no_factor (fixed : bool) n u C U M :
-  no_space u -> u <> [] -> n <> [] -> cands S cs n = [] -> unamb S cs u = true ->
+Lemma value_suffix_no_factor (fixed : bool) n u v w C U M :
+  no_space n -> n <> [] ->
+  rpartition_space (n ++ 32%N :: u) = (v, w) -> w <> [] -> cands S cs v = [] -> unamb S cs u = true ->
   In C cs -> In U (c_units C) -> spells S U M u -> u_prefix U = false ->
   u_factor U = None ->
-  value_as_default_unit fixed S cs (n ++ 32%N :: u) = Ok None.
+  value_as_default_unit fixed true true S cs (n ++ 32%N :: u) = Ok None.
 Proof.
-  intros Hns Hne Hnn Hn Hun HC HU Hsp HP Hf.
-  unfold value_as_default_unit. rewrite (rpartition_app n u Hns).
+  intros Hns Hnn Hr Hw Hv Hun HC HU Hsp HP Hf.
+  unfold value_as_default_unit. rewrite Hr.
+  pose proof (rpart_nonempty n u v w Hr Hnn) as Hvn.
+  destruct v as [|cv v'] eqn:Ev; [congruence|]. rewrite <- Ev in *.
+  assert (Hv' : nonempty v = true) by (rewrite Ev; reflexivity).
+  rewrite Hv'. simpl negb. cbv iota. unfold bind.
+  rewrite (portion_exact n u v w C U M); auto.
   destruct n as [|c0 n'] eqn:En; [congruence|]. rewrite <- En in *.
   assert (Hne' : nonempty n = true) by (rewrite En; reflexivity).
-  rewrite Hne'. simpl negb. cbv iota. unfold bind.
-  rewrite (portion_suffix_exact n u C U M); auto.
   rewrite Hne'. unfold get_conversion_factor. rewrite Hf. reflexivity.
 Qed.
 
-(* an unrecognised unit: absent, never an exception (both the code as it stands and the repaired code) *)
-Theorem unrecognised_absent_lemma (fixed : bool) a b :
-  a <> [] -> no_space b ->
-  ~ spelled_in S cs false b -> ~ spelled_in S cs true a ->
-  value_as_default_unit fixed S cs (a ++ 32%N :: b) = Ok None.
+(* an unrecognised unit text (any number of words): absent, never an exception *)
+Theorem unrecognised_absent_lemma (fixed : bool) n u v w :
+  no_space n -> n <> [] -> rpartition_space (n ++ 32%N :: u) = (v, w) ->
+  ~ spelled_in S cs false u -> ~ spelled_in S cs true v ->
+  value_as_default_unit fixed true true S cs (n ++ 32%N :: u) = Ok None.
 Proof.
-  intros Ha Hb Hnb Hna.
-  unfold value_as_default_unit. rewrite (rpartition_app a b Hb).
-  destruct a as [|c0 a'] eqn:Ea; [congruence|]. rewrite <- Ea in *.
-  assert (Hne' : nonempty a = true) by (rewrite Ea; reflexivity).
-  rewrite Hne'. simpl negb. cbv iota. unfold bind.
-  assert (Hnone : get_tag_units_portion S cs (a ++ 32%N :: b) = None).
-  { unfold get_tag_units_portion. rewrite (rpartition_app a b Hb).
-    destruct (negb (nonempty b)); [reflexivity|].
+  intros Hns Hnn Hr Hnu Hnv.
+  unfold value_as_default_unit. rewrite Hr.
+  pose proof (rpart_nonempty n u v w Hr Hnn) as Hvn.
+  destruct v as [|cv v'] eqn:Ev; [congruence|]. rewrite <- Ev in *.
+  assert (Hv' : nonempty v = true) by (rewrite Ev; reflexivity).
+  rewrite Hv'. simpl negb. cbv iota. unfold bind.
+  assert (Hnone : get_tag_units_portion true true S cs (n ++ 32%N :: u) = None).
+  { unfold get_tag_units_portion. rewrite Hr, (partition_app n u Hns).
+    destruct (negb (nonempty w)); [reflexivity|].
     apply portion_loop_none.
-    - intros C U' HC G. destruct (hit_spelled C b U' HC G) as [HU [M Hsp]].
+    - right. intros C U' HC G. destruct (hit_spelled C u U' HC G) as [HU [M Hsp]].
       destruct (u_prefix U') eqn:P; [reflexivity|].
-      exfalso. apply Hnb. exists C, U', M. auto.
-    - intros C U' HC G. destruct (hit_spelled C a U' HC G) as [HU [M Hsp]].
+      exfalso. apply Hnu. exists C, U', M. auto.
+    - intros C U' HC G. destruct (hit_spelled C v U' HC G) as [HU [M Hsp]].
       destruct (u_prefix U') eqn:P; [|reflexivity].
-      exfalso. apply Hna. exists C, U', M. auto. }
+      exfalso. apply Hnv. exists C, U', M. auto. }
   rewrite Hnone. reflexivity.
 Qed.
 
 End Tag.
 
-(* ================================================================== bare number (every schema, no hypothesis) *)
+(* ================================================================== bare number (every schema, every switch) *)
 
-Theorem bare_number_lemma S (T : utag) cs n :
+Theorem bare_number_lemma (f3 f4 : bool) S (T : utag) cs n :
   n <> [] -> no_space n -> (t_numeric T = true -> is_numeric n = true) ->
-  check_units_valid S T cs n = [UNITS_MISSING].
+  check_units_valid f3 f4 S T cs n = [UNITS_MISSING].
 Proof.
   intros Hne Hns Hnum.
   assert (Hvc : check_value_class T n = []).
@@ -739,11 +811,28 @@ Proof.
   destruct n as [|c0 n'] eqn:En; [congruence|]. rewrite <- En in *.
   assert (Hne' : nonempty n = true) by (rewrite En; reflexivity).
   rewrite Hne'. simpl negb. cbv iota.
-  destruct (portion_loop S cs [] n) as [[[sv ut] U]|] eqn:E.
-  - apply portion_loop_some in E as [[A [B _]]|[A [B _]]]; subst sv ut.
-    + simpl nonempty. cbv iota. rewrite Hns, Hvc. reflexivity.
-    + rewrite Hne'. rewrite Hns, Hvc. reflexivity.
-  - rewrite Hns, Hvc. reflexivity.
+  assert (Hpart : partition_space n = (n, [])).
+  { unfold partition_space. rewrite (split_first_space_none n Hns). reflexivity. }
+  rewrite Hpart.
+  assert (Hfin : forall o : option (str * str * unitdef),
+    (forall sv ut U, o = Some (sv, ut, U) -> sv = [] \/ (sv = n /\ ut = [])) ->
+    (let (sv, unit) :=
+       match o with
+       | Some (sv, unit, _) => if nonempty sv then (sv, Some unit) else (n, None)
+       | None => (n, None)
+       end in
+     check_value_class T (if has_space sv then first_word sv else sv) ++
+     match unit with
+     | Some (_ :: _) => []
+     | _ => [if has_space sv then UNITS_INVALID else UNITS_MISSING]
+     end) = [UNITS_MISSING]).
+  { intros o Ho. destruct o as [[[sv ut] U]|].
+    - destruct (Ho sv ut U eq_refl) as [A|[A B]]; subst sv.
+      + simpl nonempty. cbv iota. rewrite Hns, Hvc. reflexivity.
+      + subst ut. rewrite Hne'. rewrite Hns, Hvc. reflexivity.
+    - rewrite Hns, Hvc. reflexivity. }
+  destruct f3; apply Hfin; intros sv ut U E;
+    apply portion_loop_some in E as [[A [B _]]|[A [B _]]]; subst; auto.
 Qed.
 
 (* ================================================================== factors *)
@@ -816,26 +905,28 @@ Variable cs : list classdef.
 Hypothesis Hwf : wf_schema S = true.
 Hypothesis Hcs : forall C, In C cs -> In C (s_classes S).
 
-(* repaired code: the value is the number times the unit's and the prefix's declared factors *)
-Theorem convert_value_lemma n u x C U M ft fU fM :
-  no_space u -> u <> [] -> n <> [] -> cands S cs n = [] -> unamb S cs u = true ->
+(* the value is the number times the unit's and the prefix's declared factors *)
+Theorem convert_value_lemma n u v w x C U M ft fU fM :
+  no_space n -> n <> [] ->
+  rpartition_space (n ++ 32%N :: u) = (v, w) -> w <> [] -> cands S cs v = [] -> unamb S cs u = true ->
   In C cs -> In U (c_units C) -> spells S U M u -> u_prefix U = false ->
   u_factor U = Some ft -> unit_factor U = Some fU -> mod_factor M = Some fM ->
   parse_float n = Some x ->
-  value_as_default_unit true S cs (n ++ 32%N :: u) = Ok (Some (Qmult x (Qmult fU fM))).
+  value_as_default_unit true true true S cs (n ++ 32%N :: u) = Ok (Some (Qmult x (Qmult fU fM))).
 Proof.
-  intros. rewrite (value_suffix_core S cs Hwf Hcs true n u x C U M ft); auto.
+  intros. rewrite (value_suffix_core S cs Hwf Hcs true n u v w x C U M ft); auto.
   rewrite (conv_true_spec U M ft fU fM); auto.
 Qed.
 
-(* repaired code: defined whenever the spelling is accepted and the unit declares a factor *)
-Theorem convert_defined_lemma n u C U M ft :
-  no_space u -> u <> [] -> n <> [] -> cands S cs n = [] -> unamb S cs u = true ->
+(* defined whenever the spelling is accepted and the unit declares a factor *)
+Theorem convert_defined_lemma n u v w C U M ft :
+  no_space n -> n <> [] ->
+  rpartition_space (n ++ 32%N :: u) = (v, w) -> w <> [] -> cands S cs v = [] -> unamb S cs u = true ->
   In C cs -> In U (c_units C) -> spells S U M u -> u_prefix U = false ->
   u_factor U = Some ft -> is_numeric n = true ->
-  exists q, value_as_default_unit true S cs (n ++ 32%N :: u) = Ok (Some q).
+  exists q, value_as_default_unit true true true S cs (n ++ 32%N :: u) = Ok (Some q).
 Proof.
-  intros Hns Hne Hnn Hn Hun HC HU Hsp HP Hf Hnum.
+  intros Hns Hnn Hr Hw Hv Hun HC HU Hsp HP Hf Hnum.
   assert (HUall : In U (all_units S)) by (eapply all_units_in; eauto).
   destruct (wf_unit_factor S U ft (wf_unit_of S U Hwf HUall) Hf) as [fU HfU].
   destruct (wf_mod_factor S U M Hwf (proj1 Hsp)) as [fM HfM].
@@ -846,37 +937,39 @@ Proof.
   eexists. eapply convert_value_lemma; eauto.
 Qed.
 
-(* the code as it stands: same value when the text is the derived key itself (a symbol, or a name written in
-   lower case) and none of the two factor texts contains a caret *)
-Theorem convert_value_partial_lemma n u x C U M ft fU fM :
-  no_space u -> u <> [] -> n <> [] -> cands S cs n = [] -> unamb S cs u = true ->
+(* record of findings 10/11: before the fix: commits f83491d/d18c9c6 (fixed = false) the value was right only
+   when the text is the derived key itself and none of the two factor texts contains a caret *)
+Theorem convert_value_partial_lemma n u v w x C U M ft fU fM :
+  no_space n -> n <> [] ->
+  rpartition_space (n ++ 32%N :: u) = (v, w) -> w <> [] -> cands S cs v = [] -> unamb S cs u = true ->
   In C cs -> In U (c_units C) -> spells S U M u -> u_prefix U = false ->
   u_factor U = Some ft -> unit_factor U = Some fU -> mod_factor M = Some fM ->
   parse_float n = Some x ->
   (u_symbol U = true \/ casefold u = u) ->
   no_caret ft = true -> (forall m, M = Some m -> no_caret (factor_text (m_factor m)) = true) ->
-  value_as_default_unit false S cs (n ++ 32%N :: u) = Ok (Some (Qmult x (Qmult fU fM))).
+  value_as_default_unit false true true S cs (n ++ 32%N :: u) = Ok (Some (Qmult x (Qmult fU fM))).
 Proof.
-  intros Hns Hne Hnn Hn Hun HC HU Hsp HP Hf HfU HfM Hx Hkey Hc1 Hc2.
-  rewrite (value_suffix_core S cs Hwf Hcs false n u x C U M ft); auto.
+  intros Hns Hnn Hr Hw Hv Hun HC HU Hsp HP Hf HfU HfM Hx Hkey Hc1 Hc2.
+  rewrite (value_suffix_core S cs Hwf Hcs false n u v w x C U M ft); auto.
   rewrite conv_no_caret; auto.
   - rewrite (conv_true_spec U M ft fU fM); auto.
   - rewrite Hf. exact Hc1.
 Qed.
 
-(* linear in the number (repaired code) *)
-Theorem linear_lemma n1 n2 x1 x2 k u C U M ft :
-  no_space u -> u <> [] -> n1 <> [] -> n2 <> [] ->
-  cands S cs n1 = [] -> cands S cs n2 = [] -> unamb S cs u = true ->
+(* linear in the number *)
+Theorem linear_lemma n1 n2 v1 v2 w x1 x2 k u C U M ft :
+  no_space n1 -> no_space n2 -> n1 <> [] -> n2 <> [] ->
+  rpartition_space (n1 ++ 32%N :: u) = (v1, w) -> rpartition_space (n2 ++ 32%N :: u) = (v2, w) -> w <> [] ->
+  cands S cs v1 = [] -> cands S cs v2 = [] -> unamb S cs u = true ->
   In C cs -> In U (c_units C) -> spells S U M u -> u_prefix U = false ->
   u_factor U = Some ft ->
   parse_float n1 = Some x1 -> parse_float n2 = Some x2 -> Qeq x1 (Qmult k x2) ->
   exists q1 q2,
-    value_as_default_unit true S cs (n1 ++ 32%N :: u) = Ok (Some q1) /\
-    value_as_default_unit true S cs (n2 ++ 32%N :: u) = Ok (Some q2) /\
+    value_as_default_unit true true true S cs (n1 ++ 32%N :: u) = Ok (Some q1) /\
+    value_as_default_unit true true true S cs (n2 ++ 32%N :: u) = Ok (Some q2) /\
     Qeq q1 (Qmult k q2).
 Proof.
-  intros Hns Hne Hn1 Hn2 Hc1 Hc2 Hun HC HU Hsp HP Hf Hx1 Hx2 Hk.
+  intros Hs1 Hs2 Hn1 Hn2 Hr1 Hr2 Hw Hc1 Hc2 Hun HC HU Hsp HP Hf Hx1 Hx2 Hk.
   exists (Qmult x1 (conv true U M)), (Qmult x2 (conv true U M)).
   split; [eapply value_suffix_core; eauto|].
   split; [eapply value_suffix_core; eauto|].
@@ -885,7 +978,8 @@ Qed.
 
 End Value.
 
-(* ================================================================== prefix-type units: "<unit> <number>" *)
+(* ================================================================== prefix-type units: "<unit> <number>"
+   (single-word unit text; the same under every switch) *)
 
 Section Prefix.
 Variable S : uschema.
@@ -893,12 +987,13 @@ Variable cs : list classdef.
 Hypothesis Hwf : wf_schema S = true.
 Hypothesis Hcs : forall C, In C cs -> In C (s_classes S).
 
-Lemma portion_prefix_exact n u C U M :
-  no_space n -> n <> [] -> cands S cs n = [] -> unamb S cs u = true ->
+Lemma portion_prefix_exact f3 f4 n u C U M :
+  no_space n -> no_space u -> n <> [] -> cands S cs n = [] -> unamb S cs u = true ->
   In C cs -> In U (c_units C) -> spells S U M u -> u_prefix U = true ->
-  get_tag_units_portion S cs (u ++ 32%N :: n) = Some (n, u, U).
+  get_tag_units_portion f3 f4 S cs (u ++ 32%N :: n) = Some (n, u, U).
 Proof.
-  intros Hns Hne Hn Hun HC HU Hsp HP.
+  intros Hns Hus Hne Hn Hun HC HU Hsp HP.
+  rewrite (portion_flags_single f3 f4 S cs u n Hus Hns).
   unfold get_tag_units_portion. rewrite (rpartition_app u n Hns).
   destruct n as [|c n'] eqn:En; [congruence|]. rewrite <- En in *.
   assert (Hne' : nonempty n = true) by (rewrite En; reflexivity).
@@ -910,41 +1005,34 @@ Proof.
   - exists C. auto.
 Qed.
 
-(* a prefix-type unit before the number is accepted ... *)
-Theorem accepted_prefix_lemma (T : utag) n u :
-  no_space n -> n <> [] -> u <> [] -> cands S cs n = [] -> unamb S cs u = true ->
+(* a prefix-type unit before the number is accepted *)
+Theorem accepted_prefix_lemma f3 f4 (T : utag) n u :
+  no_space n -> no_space u -> n <> [] -> u <> [] -> cands S cs n = [] -> unamb S cs u = true ->
   spelled_in S cs true u ->
-  check_units_valid S T cs (u ++ 32%N :: n) = check_value_class T n.
+  check_units_valid f3 f4 S T cs (u ++ 32%N :: n) = check_value_class T n.
 Proof.
-  intros Hns Hne Hnu Hn Hun [C [U [M [HC [HU [Hsp HP]]]]]].
+  intros Hns Hus Hne Hnu Hn Hun [C [U [M [HC [HU [Hsp HP]]]]]].
   unfold check_units_valid, get_stripped_unit_value.
-  rewrite (portion_prefix_exact n u C U M); auto.
+  rewrite (portion_prefix_exact f3 f4 n u C U M); auto.
   destruct n as [|c0 n'] eqn:En; [congruence|]. rewrite <- En in *.
   assert (Hne' : nonempty n = true) by (rewrite En; reflexivity).
   rewrite Hne'. rewrite Hns.
   destruct u as [|c u']; [congruence|]. apply app_nil_r.
 Qed.
 
-(* ... and after the number it is not *)
-Theorem prefix_unit_after_number_invalid_lemma (T : utag) n u :
-  no_space u -> no_space n -> cands S cs n = [] ->
-  ~ spelled_in S cs false u ->
-  check_units_valid S T cs (n ++ 32%N :: u) = check_value_class T n ++ [UNITS_INVALID].
-Proof. intros. apply other_text_invalid_lemma; auto. Qed.
-
-Theorem value_prefix_lemma n u x C U M ft fU fM :
-  no_space n -> n <> [] -> u <> [] -> cands S cs n = [] -> unamb S cs u = true ->
+Theorem value_prefix_lemma f3 f4 n u x C U M ft fU fM :
+  no_space n -> no_space u -> n <> [] -> u <> [] -> cands S cs n = [] -> unamb S cs u = true ->
   In C cs -> In U (c_units C) -> spells S U M u -> u_prefix U = true ->
   u_factor U = Some ft -> unit_factor U = Some fU -> mod_factor M = Some fM ->
   parse_float n = Some x ->
-  value_as_default_unit true S cs (u ++ 32%N :: n) = Ok (Some (Qmult x (Qmult fU fM))).
+  value_as_default_unit true f3 f4 S cs (u ++ 32%N :: n) = Ok (Some (Qmult x (Qmult fU fM))).
 Proof.
-  intros Hns Hne Hnu Hn Hun HC HU Hsp HP Hf HfU HfM Hx.
+  intros Hns Hus Hne Hnu Hn Hun HC HU Hsp HP Hf HfU HfM Hx.
   unfold value_as_default_unit. rewrite (rpartition_app u n Hns).
   destruct u as [|c0 u'] eqn:Eu; [congruence|]. rewrite <- Eu in *.
   assert (Hnu' : nonempty u = true) by (rewrite Eu; reflexivity).
   rewrite Hnu'. simpl negb. cbv iota. unfold bind.
-  rewrite (portion_prefix_exact n u C U M); auto.
+  rewrite (portion_prefix_exact f3 f4 n u C U M); auto.
   destruct n as [|c1 n'] eqn:En; [congruence|]. rewrite <- En in *.
   assert (Hne' : nonempty n = true) by (rewrite En; reflexivity).
   rewrite Hne'.
